@@ -17,11 +17,12 @@ def finalHop (h onionCltv htlcCltv : Nat) : Except FailReason Unit :=
 
 def parseExit (n : String) : Option BbuExit := BbuExit.all.find? (fun x => x.name == n)
 
-/-- event token: `b:<h>:<exit>:<cConf>:<tConf>` | `p` | `d` -/
+/-- event token: `b:<h>:<exit>:<cConf>:<tConf>` | `p` | `d` | `r` (round 6: forward_intercepted_htlc) -/
 def parseEv (w : String) : Option NodeStep.Ev :=
   match w.splitOn ":" with
   | ["p"] => some .preimage
   | ["d"] => some .downCommitted
+  | ["r"] => some .released
   | ["b", h, x, c, t] => (parseExit x).map (fun x => .block (nat! h) x (c == "1") (t == "1"))
   | _ => none
 
@@ -33,6 +34,19 @@ def nodeRun (ic oc best cell live resp : String) (evs : List String) : String :=
     let s0 : NodeStep.St := { inCltv := nat! ic, outCltv := nat! oc, monBest := nat! best, inCell := cell == "1",
                               outLive := live == "1", upResponsive := resp == "1" }
     let log := (NodeStep.run s0 es).2
+    if log.isEmpty then "-" else " ".intercalate (log.map (fun (h, a) => toString h ++ ":" ++ a.name))
+
+/-- (round 6) `noderel <inCltv> <outCltv> <monBest> ev…`: the forward starts HELD as an intercepted HTLC (pending_intercepted_htlcs);
+    the events may release it (`r`: forward_intercepted_htlc; a no-op once the node has given the HTLC up), commit it downstream
+    (`d`) and deliver heights: `NodeStep.run`, print the log -/
+def nodeRelRun (ic oc best : String) (evs : List String) : String :=
+  match evs.mapM parseEv with
+  | none => "bad-op"
+  | some es =>
+    let s0 : NodeStep.St := { inCltv := nat! ic, outCltv := nat! oc, monBest := nat! best, inCell := false, outLive := false,
+                              intercepted := true }
+    -- the HTLC-timeout broadcast is not observed by this e2e family (the run stops at the commitment broadcast): not printed
+    let log := (NodeStep.run s0 es).2.filter (fun p => p.2 != NodeStep.Act.broadcastTimeout)
     if log.isEmpty then "-" else " ".intercalate (log.map (fun (h, a) => toString h ++ ":" ++ a.name))
 
 /-- `<set>:<weOffered>:<cltv>:<pre>` -/
@@ -57,6 +71,7 @@ def c08 : Drv where
     | ["e2e_close", oc] => ((), toString (Timing.outboundTrigger (nat! oc)))
     | ["e2e_failback", ic] => ((), toString (nat! ic - LATENCY_GRACE_PERIOD_BLOCKS))
     | "node" :: ic :: oc :: best :: cell :: live :: resp :: evs => ((), nodeRun ic oc best cell live resp evs)
+    | "noderel" :: ic :: oc :: best :: evs => ((), nodeRelRun ic oc best evs)
     | ["bbuexit", x] => ((), match parseExit x with | some x => toString x.isOk ++ " " ++ toString x.returnsTimedOut | none => "bad-op")
     | "icpt" :: out :: hs =>
       -- answered by the nodeStep ACTION (mgrIntercept inside `run`) and by Timing.interceptHold; they must agree
